@@ -197,7 +197,16 @@ pub enum ClosedIndex {
 impl ClosedEventIndex {
     pub fn open(id: BucketSegmentId, path: impl AsRef<Path>) -> Result<Self, EventIndexError> {
         let mut file = OpenOptions::new().read(true).write(true).open(path)?;
-        let (mphf, _, records_offset) = load_index_from_file(&mut file)?;
+        let (mphf, n, records_offset) = load_index_from_file(&mut file)?;
+
+        // The index is flushed in the background without a completion marker: a crash can
+        // leave a prefix of the file. A complete file holds all n records.
+        let file_len = file.metadata()?.len();
+        if n.checked_mul(RECORD_SIZE as u64)
+            .is_none_or(|len| records_offset.saturating_add(len) > file_len)
+        {
+            return Err(EventIndexError::CorruptNumSlots);
+        }
 
         Ok(ClosedEventIndex {
             id,
